@@ -69,6 +69,8 @@ class PipeFunc(Generic[T]):
     output_picker
         A function that takes the output of the wrapped function as first argument
         and the ``output_name`` (str) as second argument, and returns the desired output.
+        The name is always one of the names given in ``output_name``, also after the
+        output was renamed or put into a scope (``renames``, ``update_renames``, ``update_scope``).
         If ``None``, the output of the wrapped function is returned as is.
     renames
         A dictionary for renaming function arguments and outputs. The keys are the
@@ -333,6 +335,18 @@ class PipeFunc(Generic[T]):
         """
         if self._output_picker is None and isinstance(self.output_name, tuple):
             return functools.partial(_default_output_picker, output_name=self.output_name)
+        if self._output_picker is not None:
+            # A custom picker reads the return value of the wrapped function, which knows its
+            # outputs by their original names only (like its parameters): undo renames and scopes.
+            to_original = dict(
+                zip(at_least_tuple(self.output_name), at_least_tuple(self._output_name)),
+            )
+            if any(current != original for current, original in to_original.items()):
+                return functools.partial(
+                    _pick_with_original_name,
+                    picker=self._output_picker,
+                    to_original=to_original,
+                )
         return self._output_picker
 
     def update_defaults(self, defaults: dict[str, Any], *, overwrite: bool = False) -> None:
@@ -1418,6 +1432,16 @@ def _validate_consistent_array_use(functions: Sequence[PipeFunc]) -> None:
 def _default_output_picker(output: Any, name: str, output_name: OUTPUT_TYPE) -> Any:
     """Default output picker function for tuples."""
     return output[output_name.index(name)]
+
+
+def _pick_with_original_name(
+    output: Any,
+    name: str,
+    picker: Callable[[Any, str], Any],
+    to_original: dict[str, str],
+) -> Any:
+    """Call a custom output picker with the un-renamed name of the requested output."""
+    return picker(output, to_original.get(name, name))
 
 
 def _rename_output_name(
